@@ -124,6 +124,7 @@ func runC02(c *Ctx, tier string) {
 	c.Floor("C02-K1", 60)
 	runTypedefLatestWins(c, "C02-K2")
 	runElisionEvidence(c, "C02-D1")
+	runFloatShortcutSign(c, "C02-N1")
 }
 
 // ---------------------------------------------------------------- C03
